@@ -67,6 +67,8 @@ pub fn install_hook() {
 
 /// run one stage; `Ok(class)` / `Err(())` from the closure
 fn stage<T>(name: &str, out: &mut Vec<String>, f: impl FnOnce() -> Result<T, ()>) -> Option<T> {
+    // announced on stderr so that the parent can name the stage if the process dies in it
+    eprintln!("@stage {}", name);
     match std::panic::catch_unwind(std::panic::AssertUnwindSafe(f)) {
         Ok(Ok(v)) => {
             out.push(format!("{}:ok", name));
@@ -282,6 +284,7 @@ pub fn exec_case(kind: &str, arg: &str, data: &[u8]) -> String {
             }
         }
         "pdu" => {
+            eprintln!("@stage read");
             let strict = arg.starts_with('s');
             let max: u32 = arg[1..].parse().unwrap_or(16384);
             let r = std::panic::catch_unwind(|| dicom_ul::pdu::read_pdu(Cursor::new(data), max, strict));
@@ -349,6 +352,7 @@ pub fn exec_case(kind: &str, arg: &str, data: &[u8]) -> String {
         }
         "text" => {
             // arg = which parser; data = the string (lossy UTF-8 for the `&str` parsers)
+            eprintln!("@stage read");
             let s = String::from_utf8_lossy(data).to_string();
             let r: Result<Result<String, ()>, _> = std::panic::catch_unwind(|| match arg {
                 "tag" => s.parse::<Tag>().map(|t| format!("{:04x}{:04x}", t.0, t.1)).map_err(|_| ()),
